@@ -66,11 +66,12 @@ fn end_time(h: &HitObject) -> f64 {
 }
 
 fn bpm_map(tps: &[(f64, f64)], objs: Vec<HitObject>) -> Beatmap {
-    Beatmap {
-        timing_points: tps.iter().map(|(t, b)| TimingPoint { time: *t, beat_len: *b }).collect(),
-        hit_objects: objs,
-        ..Default::default()
-    }
+    // field assignment instead of a struct literal: a private field added to `Beatmap` must not
+    // stop the harness from building
+    let mut map = Beatmap::default();
+    map.timing_points = tps.iter().map(|(t, b)| TimingPoint { time: *t, beat_len: *b }).collect();
+    map.hit_objects = objs;
+    map
 }
 
 fn bpm_cases(seed: u64, n_random: usize) -> Vec<BpmCase> {
